@@ -145,6 +145,24 @@ def _default_pure_calls():
 PURE_CALLS = _default_pure_calls()
 
 
+class FrameBB(int):
+    """Block number handed to the rule's hooks while an inlined callee is walked: usable as an index into the callee's blocks,
+    but never equal to a plain block number of the function the rule was written for (hooks compare `bb == head`)."""
+    def __new__(cls, v, frame):
+        o = int.__new__(cls, v)
+        o.frame = frame
+        return o
+
+    def __eq__(self, other):
+        return isinstance(other, FrameBB) and int(self) == int(other) and self.frame == other.frame
+
+    def __ne__(self, other):
+        return not self.__eq__(other)
+
+    def __hash__(self):
+        return hash((int(self), self.frame))
+
+
 class Walker:
     def __init__(self, F, body, *, on_stmt=None, on_term=None, on_edge=None, pure_calls=None,
                  after_stmt=None, call_result=None,
@@ -174,13 +192,20 @@ class Walker:
         self.std_wrappers = std_wrappers
         self.states_explored = 0
         self.edges_taken = set()
+        self.pre = ""            # key prefix of this frame's locals (non-empty inside an inlined callee)
+        self.depth = 0
+        self.frames = ()         # qualified names of the functions being walked above this one
+        self._ctor = dict(on_stmt=on_stmt, on_term=on_term, on_edge=on_edge, pure_calls=pure_calls, after_stmt=after_stmt,
+                          call_result=call_result, max_states=max_states, arith=arith, ordered_marks=ordered_marks,
+                          inline_eq_derive=inline_eq_derive, max_marks=max_marks, dedupe_marks=dedupe_marks, refine=refine,
+                          keep_ints=keep_ints, std_wrappers=std_wrappers)
 
     # ---------------------------------------------------------------------------------------------
     # places and operands
 
     def norm(self, env, place):
         """Normalised key of a place, resolving derefs of tracked references."""
-        key = str(place["l"])
+        key = self.pre + str(place["l"])
         for p in place["p"]:
             if p == "*":
                 v = env.get(key)
@@ -195,7 +220,7 @@ class Walker:
                 elif k == "d":
                     key += "@%s" % p["v"]
                 elif k == "i":
-                    iv = env.get(str(p["l"]))
+                    iv = env.get(self.pre + str(p["l"]))
                     key += "[%s]" % (iv if isinstance(iv, int) else "?")
                 elif k == "ci":
                     key += "[%s%d]" % ("-" if p["fe"] else "", p["o"])
@@ -474,11 +499,12 @@ class Walker:
             env = Env(fenv)
             marks_l = list(marks) if self.ordered else set(marks)
             block = self.body.blocks[bb]
+            hb = FrameBB(bb, self.pre) if self.pre else bb
             stopped = False
             for idx in range(si, len(block["s"])):
                 s = block["s"][idx]
                 if self.on_stmt:
-                    m = self.on_stmt(self, bb, idx, s, env)
+                    m = self.on_stmt(self, hb, idx, s, env)
                     if m is STOP:
                         stopped = True
                         break
@@ -491,17 +517,17 @@ class Walker:
                         for k2 in [k2 for k2, v2 in env.items() if isinstance(v2, int) and _prefix_match(k2, d)]:
                             del env[k2]
                     if self.after_stmt:
-                        self.after_stmt(self, bb, idx, s, env)
+                        self.after_stmt(self, hb, idx, s, env)
                 elif s["k"] == "setdiscr":
                     env.kill(self.norm(env, s["p"]))
                 elif s["k"] == "dead":
-                    env.kill(str(s["l"]))
+                    env.kill(self.pre + str(s["l"]))
             if stopped:
                 outcomes.add(("stop", self._freeze_marks(marks_l), self._snapshot(env) if self.want_ret else None))
                 continue
             t = block["t"]
             if self.on_term:
-                m = self.on_term(self, bb, t, env)
+                m = self.on_term(self, hb, t, env)
                 if m is STOP:
                     outcomes.add(("stop", self._freeze_marks(marks_l), self._snapshot(env) if self.want_ret else None))
                     continue
@@ -524,9 +550,25 @@ class Walker:
                               self._freeze_marks(marks_l), ret))
                 continue
             fm = self._freeze_marks(marks_l)
-            for nb, nenv in nexts:
+            for nx in nexts:
+                nb, nenv = nx[0], nx[1]
+                if len(nx) > 2:
+                    # result of an inlined call: (next block or None, env, marks made inside the callee, kind when the path ended there)
+                    ml = list(marks_l) if self.ordered else set(marks_l)
+                    for m in nx[2]:
+                        self._add_mark(ml, m)
+                    fm2 = self._freeze_marks(ml)
+                    if nb is None:
+                        outcomes.add((nx[3], fm2, self._snapshot(nenv) if self.want_ret else None))
+                        continue
+                    self.edges_taken.add((bb, nb))
+                    st = (nb, 0, nenv.frozen(), fm2)
+                    if st not in seen:
+                        seen.add(st)
+                        stack.append(st)
+                    continue
                 if self.on_edge:
-                    r = self.on_edge(self, bb, nb, nenv)
+                    r = self.on_edge(self, hb, (FrameBB(nb, self.pre) if self.pre else nb), nenv)
                     if r is STOP:
                         continue
                 self.edges_taken.add((bb, nb))
@@ -647,6 +689,16 @@ class Walker:
         name = callee_name(t)
         args = [self.val(env, x) for x in t["xs"]]
         dst = self.norm(env, t["dst"])
+        callee = self._inline_target(t, name)
+        if callee is not None and self.call_result is not None:
+            # a rule that models this very call keeps doing so (asked on a copy: hooks keep counters in the environment)
+            probe = self.call_result(self, (FrameBB(bb, self.pre) if self.pre else bb), t, Env(env), list(args))
+            if probe is not None:
+                callee = None
+        if callee is not None:
+            r = self._inline_call(bb, t, env, args, dst, callee)
+            if r is not None:
+                return r
         # a &mut reference passed to a call may modify its referent
         for x, v in zip(t["xs"], args):
             if isinstance(v, tuple) and v[0] == "ref" and x["k"] in ("copy", "move"):
@@ -662,18 +714,83 @@ class Walker:
             elif self.inline_eq_derive and name.endswith(" as core::cmp::PartialEq>::eq"):
                 result = self._derived_eq(env, args)
         if result is None and self.call_result is not None:
-            result = self.call_result(self, bb, t, env, args)
+            result = self.call_result(self, (FrameBB(bb, self.pre) if self.pre else bb), t, env, args)
         if result is None and name is not None and self.std_wrappers:
             result = std_wrapper_result(self, t, env, args, name, dst)
         # moved-from argument locals are dead afterwards
         for x in t["xs"]:
-            if x["k"] == "move" and not x["p"] and not _prefix_match(dst, str(x["l"])):
-                env.kill(str(x["l"]))
+            if x["k"] == "move" and not x["p"] and not _prefix_match(dst, self.pre + str(x["l"])):
+                env.kill(self.pre + str(x["l"]))
         if result is not None:
             env[dst] = result
         if t["t"] is None:
             return None
         return [(t["t"], env)]
+
+    # ---------------------------------------------------------------------------------------------
+    # helper functions that did not exist on the reference tree are walked as if their body stood at the call site
+
+    MAX_INLINE_DEPTH = 3
+
+    def _inline_target(self, t, name):
+        if name is None or self.depth >= self.MAX_INLINE_DEPTH or name in self.pure:
+            return None
+        f = t["f"]
+        if not f.get("rlocal") or not f.get("r"):
+            return None
+        q = f["r"]
+        if not self.F.is_new_fn(q) or q == self.body.fn.q or q in self.frames:
+            return None
+        g = self.F.fn_opt(q)
+        if g is None or g.body is None or len(g.body.blocks) > 400:
+            return None
+        return g
+
+    def _inline_call(self, bb, t, env, args, dst, callee):
+        pre2 = "%sF%d:" % (self.pre, self.depth + 1)
+        env2 = Env(env)
+        for k2 in [k2 for k2 in env2 if k2.startswith(pre2)]:
+            del env2[k2]
+        for i, (x, v) in enumerate(zip(t["xs"], args)):
+            dk = pre2 + str(i + 1)
+            if x["k"] in ("copy", "move"):
+                env2.copy_tree(self.norm(env, x), dk)
+            if v is not None:
+                env2[dk] = v
+        c = dict(self._ctor)
+        sub = Walker(self.F, callee.body, want_ret=True, ret_prefixes=(), **c)
+        sub.pre, sub.depth, sub.frames = pre2, self.depth + 1, self.frames + (self.body.fn.q,)
+        sub._full_ret = True
+        sub.max_states = max(1000, self.max_states - self.states_explored)
+        sub.pure = self.pure
+        for a in ("full", "stop_on_limit"):
+            pass
+        outs = sub.run(0, env2)
+        self.states_explored += sub.states_explored
+        if self.states_explored > self.max_states:
+            raise WalkLimit("state budget exceeded in %s (inlining %s)" % (self.body.fn.q, callee.q))
+        res = []
+        for kind, marks, ret in outs:
+            ms = tuple(marks) if self.ordered else tuple(sorted(marks, key=repr))
+            if kind == "return":
+                e3 = Env(dict(ret))
+                e3.kill(dst)
+                e3.copy_tree(pre2 + "0", dst)
+                for k2 in [k2 for k2 in e3 if k2.startswith(pre2)]:
+                    del e3[k2]
+                # moved-from argument locals are dead afterwards
+                for x in t["xs"]:
+                    if x["k"] == "move" and not x["p"] and not _prefix_match(dst, self.pre + str(x["l"])):
+                        e3.kill(self.pre + str(x["l"]))
+                if t["t"] is None:
+                    res.append((None, e3, ms, "diverge:call"))
+                else:
+                    res.append((t["t"], e3, ms))
+            else:
+                # the path ended inside the callee (STOP from a hook, panic, unreachable)
+                e3 = Env(env)
+                res.append((None, e3, ms, kind))
+        return res
 
     def _derived_eq(self, env, args):
         vs = []
